@@ -569,6 +569,8 @@ Section Suite.
     (* one response per hidden attribute, no more and no less (fix F17) *)
     if negb (Nat.eqb (length (sp_s5 p)) (length U)) then Ok false else
     let N := pk_N pk in let ch := sp_chal p in
+    (* the four commitments are canonical residues modulo N (fix F19) *)
+    if existsb (fun c => (c_value c <? 0) || (N <=? c_value c)) [sp_Cx p; sp_Cv p; sp_Cw p; sp_Ce p] then Ok false else
     let* tcx := walk bases N (sp_s5 p) rmsgs ch U nsm 0%N 1 in
     let tcx := Z.rem tcx N in
     let* cv4 := pow_mod (c_value (sp_Cv p)) (sp_s4 p) N in
@@ -645,6 +647,8 @@ Section Suite.
     mret {| sq_E := E; sq_F := F; sq_ss := ss |}.
 
   Definition verify_of_square (p : proof_sq) (g h n : Z) : outcome bool :=
+    (* F is a canonical residue (fix F19) *)
+    if (sq_F p <? 0) || (n <=? sq_F p) then Ok false else
     verify_same_secret (sq_F p) (sq_E p) g h (sq_F p) h n (sq_ss p).
 
   Definition li_upper (T b : Z) : Z := two T * (two (t + l) * b - 1).
@@ -731,6 +735,8 @@ Section Suite.
   Definition boudot_verify (p : boudot) (g h n rmin rmax : Z) : outcome bool :=
     if rmax <=? rmin then Panic else
     let T := range_T rmin rmax in
+    (* the commitment the proof is about is a canonical residue (fix F19) *)
+    if (bd_E p <? 0) || (n <=? bd_E p) then Ok false else
     let* Ep := pow_mod (bd_E p) (two T) n in
     if bd_Eprime p =? Ep then verify_of_tolerance (bd_wt p) g h (bd_Eprime p) n rmin rmax T else Ok false.
 
